@@ -723,6 +723,15 @@ var c05ImpCfgs = []c05ImpCfg{
 		Quals: []c05Qual{{"declared-name", "p", "name-like-current"}, {"none", "", "-"}}},
 	{Name: "swapped-aliases", Target: c05Imp{"a", "ex.com/m/b"}, Second: &c05Imp{"b", "ex.com/m/a"}, Method: "Mb",
 		Quals: []c05Qual{{"alias", "a", "-"}}, NoOrder: true},
+	// one path imported twice in one file: every spec binds its own name
+	{Name: "same-path-twice-alias-second", Target: c05Imp{"", "ex.com/m/a"}, Second: &c05Imp{"a2", "ex.com/m/a"}, Method: "Ma",
+		Quals: []c05Qual{{"declared-name", "a", "-"}, {"second-spec-alias", "a2", "-"}, {"unknown", "zz", "-"}}, NoOrder: true},
+	{Name: "same-path-twice-alias-first", Target: c05Imp{"a2", "ex.com/m/a"}, Second: &c05Imp{"", "ex.com/m/a"}, Method: "Ma",
+		Quals: []c05Qual{{"declared-name", "a", "-"}, {"first-spec-alias", "a2", "-"}}, NoOrder: true},
+	{Name: "same-path-twice-two-aliases", Target: c05Imp{"a1", "ex.com/m/a"}, Second: &c05Imp{"a2", "ex.com/m/a"}, Method: "Ma",
+		Quals: []c05Qual{{"first-spec-alias", "a1", "-"}, {"second-spec-alias", "a2", "-"}}, NoOrder: true},
+	{Name: "same-path-blank-then-plain", Target: c05Imp{"_", "ex.com/m/a"}, Second: &c05Imp{"", "ex.com/m/a"}, Method: "Ma",
+		Quals: []c05Qual{{"declared-name", "a", "-"}}, NoOrder: true},
 	{Name: "alias-shadows-other-import-name", Target: c05Imp{"z", "ex.com/m/a"}, Method: "Ma",
 		Quals: []c05Qual{{"alias", "z", "-"}}, Inames: []c05Iname{{"exists", "I"}, {"misspelt", "Imiss"}}, NoOrder: true},
 }
